@@ -218,13 +218,14 @@ Fixpoint run (st : state) (ops : list op) : state * list obs :=
   | o :: os => let '(s1, b) := step st o in let '(s2, bs) := run s1 os in (s2, b :: bs)
   end.
 
-(* Agent.FlushAllData for one shard: queue_len single steps with sendEmpty=false, preprocessor running *)
+(* Agent.FlushAllData for one shard: flush_all_steps (generated from the real loop; must be queue_len for the ring to
+   be emptied — AgentQueue/ProofsHist.v flush_all_steps_ok) single steps with sendEmpty=false, preprocessor running *)
 Fixpoint flush_all_n (n : nat) (st : state) : state :=
   match n with
   | O => st
   | S k => flush_all_n k (fst (single_step false st))
   end.
-Definition flush_all (st : state) : state := fst (drain (flush_all_n (Z.to_nat queue_len) st)).
+Definition flush_all (st : state) : state := fst (drain (flush_all_n (Z.to_nat flush_all_steps) st)).
 
 (* ---------- OriginalTagValues / OriginalMarshalAppend ---------- *)
 
